@@ -103,11 +103,13 @@ func (m *Nitro) DecodeItem(ver int, buf []byte, r io.Reader) (*Item, uint32, err
 	if l > 0 {
 		itm := m.allocItem(l, m.useMemoryMgmt)
 		data := itm.Bytes()
-		_, err := io.ReadFull(r, data)
-		if err == nil {
-			checksum = checksum ^ crc32.ChecksumIEEE(data)
+		if _, err := io.ReadFull(r, data); err != nil {
+			// A truncated item is not handed out: nobody would release it
+			m.freeItem(itm)
+			return nil, checksum, err
 		}
-		return itm, checksum, err
+		checksum = checksum ^ crc32.ChecksumIEEE(data)
+		return itm, checksum, nil
 	}
 
 	return nil, checksum, nil
